@@ -16,6 +16,14 @@ Put(buf, w) == IF PutRefused(buf, w) THEN buf
 GetRefused(buf, n) == Len(buf) < n
 Get(buf, n) == SubSeq(buf, 1, n)
 
+\* The buffer a caller passes is in general a WINDOW of a larger array: mem[Pre+1 .. Pre+len], followed by `slack`
+\* bytes of spare capacity that belong to somebody else (a field carved out of a block). "Every other byte" of the
+\* contract includes those neighbours, and "too short" is about the window's length, not its capacity.
+Pre == 3
+Window(mem, len) == SubSeq(mem, Pre + 1, Pre + len)
+PutMem(mem, len, w) == IF len < Len(w) THEN mem
+                       ELSE [i \in 1..Len(mem) |-> IF i > Pre /\ i <= Pre + Len(w) THEN w[i - Pre] ELSE mem[i]]
+
 \* ---- UInt64ToString: canonical decimal of a limb word ----------------------
 \* school division of the limb sequence by 10, most significant limb first
 RECURSIVE DivStep(_, _, _)
@@ -32,22 +40,24 @@ Reverse(s) == [i \in 1..Len(s) |-> s[Len(s) + 1 - i]]
 Dec(w) == IF IsZero(w) THEN <<0>> ELSE Reverse(DecRev(w))     \* digits, most significant first
 
 \* ---- case enumeration: every case is an initial state; Emit prints it -------
-CONSTANTS Lens,      \* buffer lengths
+CONSTANTS Slacks,    \* spare capacity behind the buffer (bytes of the backing array beyond its length)
+          Lens,      \* buffer lengths
           Priors,    \* prior fill patterns: "zero" | "ff" | "pat"
           Words64, Words32   \* sets of limb sequences
 
 VARIABLES cs
 Fill(p, n) == [i \in 1..n |-> CASE p = "zero" -> 0 [] p = "ff" -> 255 [] OTHER -> (i * 37 + 11) % 256]
 
-Cases == [len : Lens, prior : Priors, w : Words64 \cup Words32]
+Cases == [len : Lens, slack : Slacks, prior : Priors, w : Words64 \cup Words32]
 Init == cs \in Cases
 Next == UNCHANGED cs
 
 Expected(c) ==
-  LET buf == Fill(c.prior, c.len) IN
-  [len |-> c.len, prior |-> c.prior, w |-> c.w,
+  LET mem == Fill(c.prior, Pre + c.len + c.slack)
+      buf == Window(mem, c.len) IN
+  [len |-> c.len, slack |-> c.slack, prior |-> c.prior, w |-> c.w,
    refused |-> IF PutRefused(buf, c.w) THEN 1 ELSE 0,
-   after |-> Put(buf, c.w),
+   after |-> PutMem(mem, c.len, c.w),      \* the whole backing array
    dec |-> Dec(c.w)]
 
 \* properties of the contract itself, checked on every case
@@ -57,6 +67,10 @@ Framed    == LET buf == Fill(cs.prior, cs.len) b2 == Put(buf, cs.w) IN
              /\ Len(b2) = Len(buf)
              /\ \A i \in 1..Len(buf) : i > Len(cs.w) => b2[i] = buf[i]
 RefusedUntouched == LET buf == Fill(cs.prior, cs.len) IN PutRefused(buf, cs.w) => Put(buf, cs.w) = buf
+\* the window view and the whole-array view agree, and nothing outside the window ever changes
+WindowFramed == LET mem == Fill(cs.prior, Pre + cs.len + cs.slack) m2 == PutMem(mem, cs.len, cs.w) IN
+             /\ Window(m2, cs.len) = Put(Window(mem, cs.len), cs.w)
+             /\ \A i \in 1..Len(mem) : (i <= Pre \/ i > Pre + cs.len) => m2[i] = mem[i]
 DecCanonical == LET d == Dec(cs.w) IN
              /\ \A i \in 1..Len(d) : d[i] \in 0..9
              /\ (Len(d) > 1 => d[1] # 0)
